@@ -876,7 +876,7 @@ DST_NAMES = ["out.tif", "noext", "with space.bin", ".hidden.tif", "a.b.c"]
 
 @st.composite
 def s_sink(draw):
-    n = draw(st.one_of(st.integers(1, 8), st.integers(1, 8), st.integers(1, 8), st.integers(9, 12)))
+    n = draw(st.one_of(*([st.integers(1, 8)] * 5), st.integers(9, 12)))
     nos = draw(st.lists(PART_NUMBERS, min_size=n, max_size=n, unique=True))
     order = draw(st.sampled_from(["numeric", "numeric", "as_drawn", "reverse"]))
     if order == "numeric":
@@ -1161,7 +1161,7 @@ def build(chk: Check) -> None:
     chk.sub("sched_random", o_sched, strategy=s_sched(), n={"quick": 5000, "thorough": 300000},
             budget_s={"quick": 50, "thorough": 800})
     chk.sub("sched_dfs2", o_dfs, enum=e_dfs, exhaustive_tiers=("thorough",), budget_s={"quick": 60, "thorough": 850})
-    chk.sub("sink_finalise", o_sink, strategy=s_sink(), n={"quick": 3000, "thorough": 100000},
+    chk.sub("sink_finalise", o_sink, strategy=s_sink(), n={"quick": 3000, "thorough": 80000},
             budget_s={"quick": 40, "thorough": 600})
     chk.sub("sink_limits", o_limits, strategy=s_limits(), n={"quick": 3000, "thorough": 100000},
             budget_s={"quick": 20, "thorough": 300})
